@@ -1254,7 +1254,21 @@ fn query<'t, P: Program<'t>>(p: &P, label: Value, is_any: bool, model: Option<Mo
 /// Syntactic triggers of the listed C09 findings on the reference parse.
 pub fn c09_key(ast: Option<&Ast>) -> Option<&'static str> {
     let ast = ast?;
-    // A branch token written after a tree wildcard (any depth, textual order).
+    // An open-ended repetition whose body ends with a separator (`<*/>`): it needs the trailing
+    // separator, so `p/x` does not match although `p` does.
+    fn ends_with_open_sep_rep(seq: &Seq) -> bool {
+        match seq.toks.last().map(|t| &t.node) {
+            Some(Node::Rep { body, hi: None, .. }) => {
+                matches!(body.toks.last().map(|b| &b.node), Some(Node::Sep)) || ends_with_open_sep_rep(body)
+            },
+            Some(Node::Rep { body, .. }) => ends_with_open_sep_rep(body),
+            Some(Node::Alt(bs)) => bs.iter().any(ends_with_open_sep_rep),
+            _ => false,
+        }
+    }
+    if ends_with_open_sep_rep(&ast.seq) {
+        return Some("open-repetition-of-separator-terminated-components-judged-exhaustive");
+    }
     // A branch token written after a tree wildcard or after an open-ended repetition (any depth,
     // textual order): the exhaustiveness fold skips over a branch whose text is bounded instead
     // of stopping at it.
